@@ -60,6 +60,7 @@ ImplStep(st, rm, d, S) ==
   CASE S.op = "Init"     -> ImplFresh(Tr.def, Tr.rules)
     [] S.op = "Clear"    -> ImplFresh(a.def, a.rules)
     [] S.op = "Reopen"   -> Res(st, 0, <<>>, "")
+    [] S.op \in {"Paginate", "PagLinks"} -> Res(st, 0, <<>>, S.exc)   \* read-only (clauses: Queries)
     [] S.op = "AddPage"  -> AddPageReq(st, rm, d, a.l, a.cr)
     [] S.op = "AddPages" -> AddPagesReq(st, rm, d, a.ls, a.cr)
     [] S.op = "AddLinks" -> AddLinksReq(st, rm, d, a.pairs)
@@ -79,6 +80,7 @@ AbsStep(A, st, rm, d, S) ==
   CASE S.op = "Init"     -> AbsFresh(Tr.def, Tr.rules)
     [] S.op = "Clear"    -> AbsFresh(a.def, a.rules)
     [] S.op = "Reopen"   -> NoReport(A, "")
+    [] S.op \in {"Paginate", "PagLinks"} -> NoReport(A, S.exc)
     [] S.op = "AddPage"  -> AbsAddPage(A, rm, d, a.l, a.cr)
     [] S.op = "AddPages" -> AbsAddPages(A, rm, d, a.ls, a.cr)
     [] S.op = "AddLinks" -> AbsAddLinks(A, rm, d, a.pairs)
